@@ -22,6 +22,41 @@ reg("C02", "exploration",
     "Trusted base: secp256k1-zkp, blake2b, the harness's reference ledger. SKIP_POW delivery (PoW/difficulty rules are C04). "
     "Forks deeper than the compaction horizon are out of scope by the statement.")
 
+reg("C01", "exploration",
+    "validity-by-construction oracle (openings known to the harness, independent bookkeeping) + single-field corruption operators + running-sum recomputation over chain histories",
+    "Valid transactions/blocks are assembled from openings the harness knows and re-checked by plain integer / curve bookkeeping; every "
+    "corruption operator (amount, fee, offset, dropped/duplicated/foreign kernel, swapped proofs or signatures, replaced input, forged "
+    "coinbase value or flag, over-claim with compensating burn) changes exactly one thing and must be refused by Transaction::validate / "
+    "Block::validate / Chain::process_block; over fork-tree histories the stored running sums of every head are compared with sums "
+    "recomputed from the replayed full state and the full-state equation is evaluated after every accepted block.",
+    "Trusted base: secp256k1-zkp (proofs, signatures, point arithmetic) and blake2b. Soundness of the cryptography itself is out of reach.")
+
+reg("C03", "exploration",
+    "event-log checker (HeadMove hook) + reference max-work oracle per delivery + cross-order final-state comparison (exhaustive permutations for small trees)",
+    "For random fork trees (SKIP_POW with pairwise distinct totals, and real PoW) the same block set is delivered in many orders: every "
+    "permutation for trees of <=5 blocks (after header batches), sampled orders of classes parent-first / headers-first / children before "
+    "parents (orphan pool) / duplicates / interleaved for larger ones. Per delivery: every HeadMove event goes to strictly more work and to "
+    "a stored accepted block, head == reference max-work connected block; per tree: final best-chain state digests equal across all orders "
+    "and equal to a node fed the winning chain only and to the replayed reference.",
+    "Orphan eviction by age and beyond-capacity floods are not exercised. Ties in total difficulty are excluded from the order-independence clause only.")
+
+reg("C06", "exploration",
+    "snapshot-diff monitor around every refused call + twin-node differential over fork-tree histories with staged hostile inputs",
+    "A subject node and a twin process the same history; the subject additionally receives hostile inputs failing at every validation stage "
+    "(read-time, header rules, body validation, immature coinbase, forged UTXO violations, late root/size mismatches after the block was "
+    "applied to the working MMRs, on the head and on fork parents, broken header batches, refused transactions). Structural snapshots "
+    "(head, roots, sizes, full unspent set by two access paths, block sums and spend records of best-chain blocks) must be identical before "
+    "and after each refused call and for valid losing-fork blocks; subject and twin must answer every later delivery identically.",
+    "A refused block whose header is itself valid may leave that header remembered (header_head): best-chain-only comparison in that case, as the statement allows.")
+
+reg("C10", "exploration",
+    "round-trip / re-encoding / hash-invariance monitors over generated values x protocol versions + canonical-form perturbations built with an independent reference encoder",
+    "About a million value x version round trips per quick run over every consensus and wire type (two readers, exact consumption, field "
+    "equality, identical re-encoding, identity hash equal across versions and equal to an independent v1 reference encoding), and ~100k "
+    "invalid-by-construction encodings (unsorted/duplicate entries, reserved or padding bits, undefined tags, inconsistent counts) that must "
+    "be refused by both readers.",
+    "p2p messages without a reference encoder are only covered by the metamorphic relations. One recorded known finding (IPv4-mapped PeerAddr normalisation).")
+
 NOT_READY_REASON = "check under construction in this session (design in DESIGN.md section 3); not yet claimed"
 
 def main():
